@@ -139,6 +139,9 @@ pub struct Req {
     pub timed: bool,
     /// reads: event paths asked for besides the attribute paths
     pub ev_paths: Vec<(Option<u16>, Option<u32>, Option<u32>)>,
+    /// timed writes / invokes: everything the controller sends after its first datagram (the timed request) is held
+    /// back in the network until the announced window (2 s) has passed
+    pub late: bool,
 }
 
 pub struct Outcome {
@@ -322,9 +325,24 @@ pub fn run_request(spec: &NodeSpec, acl: &[AclEntry], pase: bool, req: &Req, max
     let devside = async { select(responder.run::<2>(), dm.run()).coalesce().await };
     let mut all = pin!(select4(dev.run(&crypto, Tx(net.clone(), 1), Rx(net.clone(), 1), NoNetwork), ctl.run(&crypto, Tx(net.clone(), 0), Rx(net.clone(), 0), NoNetwork), devside, story));
     let mut n_dgram = 0usize;
+    let mut ctl_delivered = 0usize;
     let _ = drive(all.as_mut(), &net, &Limits { max_virtual_ms: 200_000, max_steps: 200_000, ..Default::default() }, |net| {
         if done.get() {
             return Step::Stop;
+        }
+        if req.late && sim::now_ms() < 2600 {
+            // deliver the first datagram of the controller and everything of the device; hold the rest
+            let pick = net.borrow().wire.iter().position(|d| d.src == 1 || ctl_delivered == 0);
+            return match pick {
+                Some(i) => {
+                    if net.borrow().wire[i].src == 0 {
+                        ctl_delivered += 1;
+                    }
+                    n_dgram += 1;
+                    Step::Deliver(i)
+                }
+                None => Step::NextTimer,
+            };
         }
         if !net.borrow().wire.is_empty() {
             n_dgram += 1;
